@@ -272,7 +272,7 @@ func c14Templates() map[string][]byte {
 
 func init() {
 	p := register(&Prop{ID: "C14", Level: "exploration",
-		Rule: "exhaustive: every byte string of length<=2 (quick) / <=3 (thorough) and every string of length<=4 (quick) / <=5 (thorough) over a 24/40-symbol opcode+push alphabet; every standard template with every byte replaced by every value, every push replaced by 4c00/4d0000/4e00000000/OP_0/truncated push, every part removed; each through all inspection queries (and NodeJSON marshalling for templates and short strings). distinct_nontrivial = distinct (ScriptType, predicate vector, decodable) classes x script length observed"})
+		Rule: "exhaustive: every byte string of length<=2 (quick) / <=3 (thorough) and every string of length<=4 (quick) / <=5 (thorough) over a 24/40-symbol opcode+push alphabet; every standard template with every byte replaced by every value, every push replaced by 4c00/4d0000/4e00000000/OP_0/truncated push, every part removed, every token and every pair of tokens re-encoded (push through PUSHDATA1/2/4, one-byte opcode as a one-byte push); each through all inspection queries (and NodeJSON marshalling for templates and short strings). distinct_nontrivial = distinct (ScriptType, predicate vector, decodable) classes x script length observed"})
 	sp := NewSpace(p, "bytes", c14Check)
 	p.Run = func(r *rep.Run, thorough bool) {
 		classify := func(c c14Case) []rep.Finding {
@@ -344,6 +344,30 @@ func init() {
 			}
 			toks, _ := refTokenize(t)
 			repl := [][]byte{{0x4c, 0x00}, {0x4d, 0x00, 0x00}, {0x4e, 0, 0, 0, 0}, {0x00}, {0x4c}, {0x4d, 0x01}, {0x05, 0x01}, {0x4e, 0xff, 0xff, 0xff, 0xff}, {0x4e, 0xff, 0xff, 0xff, 0x7f}}
+			// every token re-encoded without changing what it decodes to: a push through
+			// PUSHDATA1/2/4, a one-byte opcode as a one-byte push of that byte - one token and
+			// every pair of tokens (the result is no longer the exact template)
+			reenc := func(tk refTok) [][]byte {
+				if tk.Push {
+					n := len(tk.Data)
+					return [][]byte{
+						append([]byte{0x4c, byte(n)}, tk.Data...),
+						append([]byte{0x4d, byte(n), byte(n >> 8)}, tk.Data...),
+						append([]byte{0x4e, byte(n), byte(n >> 8), 0, 0}, tk.Data...),
+					}
+				}
+				return [][]byte{{0x01, tk.Op}, {0x4c, 0x01, tk.Op}}
+			}
+			for ti, tk := range toks {
+				for _, e1 := range reenc(tk) {
+					add(bytes.Join([][]byte{t[:tk.Off], e1, t[tk.End:]}, nil))
+					for tj := ti + 1; tj < len(toks); tj++ {
+						for _, e2 := range reenc(toks[tj]) {
+							add(bytes.Join([][]byte{t[:tk.Off], e1, t[tk.End:toks[tj].Off], e2, t[toks[tj].End:]}, nil))
+						}
+					}
+				}
+			}
 			for ti, tk := range toks {
 				// remove the token
 				add(append(append([]byte(nil), t[:tk.Off]...), t[tk.End:]...))
